@@ -583,6 +583,58 @@ class Check(PropertyCheck):
             return f"a plain method returning a value must raise in the owner loop ({obs['owner_errors']} of {burst})"
         return None
 
+    def extra_checks(self, rep, tier, rng):
+        """the proxy looks at the wrapped object's attribute at every use: an attribute that was callable when first used
+        and is re-bound later (to another callable, to a non-callable value) is judged as it is NOW"""
+        import bellows.thread as bt
+        problems = []
+
+        async def main():
+            elt = bt.EventLoopThread()
+            await elt.start()
+            try:
+                tgt = Target()
+                proxy = bt.ThreadsafeProxy(tgt, elt.loop)
+                r1 = await asyncio.wait_for(proxy.coro_value(1), 2)
+
+                async def other(tag):
+                    return 5000 + tag
+                tgt.coro_value = other
+                r2 = await asyncio.wait_for(proxy.coro_value(1), 2)
+                if (r1, r2) != (1001, 5001):
+                    problems.append(f"coroutine method re-bound on the wrapped object: the calls returned {r1}, {r2}; the second one "
+                                    f"must run the method the object has now (5001)")
+                tgt.coro_value = 42
+                try:
+                    fn = proxy.coro_value
+                    problems.append(f"the attribute was re-bound to a non-callable value and was not refused ({fn!r})")
+                except TypeError:
+                    pass
+                proxy.plain_none(7)
+                tgt.plain_none = "not callable any more"
+                try:
+                    proxy.plain_none
+                    problems.append("a plain method re-bound to a non-callable value was not refused")
+                except TypeError:
+                    pass
+            finally:
+                elt.force_stop()
+                await asyncio.wait_for(elt.thread_complete, 5)
+
+        loop = asyncio.new_event_loop()
+        asyncio.set_event_loop(loop)
+        try:
+            loop.run_until_complete(asyncio.wait_for(main(), 20))
+        except BaseException as e:  # noqa
+            problems.append(f"the scenario crashed: {e!r}")
+        finally:
+            loop.close()
+        rep.cov["rebound_attribute_scenarios"] = 1
+        if problems:
+            rep.violation({"input": "use an attribute through the proxy, re-bind it on the wrapped object, use it again",
+                           "observed": problems, "required": "calls run the wrapped object's method; non-callable attributes are refused"},
+                          found_input=True, signature="proxy:rebound-attribute")
+
     def nontrivial(self, case, obs):
         return case["caller"] == "other"
 
